@@ -46,6 +46,12 @@ func vExists(lo, hi int, f func(int) bool) bool {
 	return false
 }
 
+// sameOrFresh(res, src): res shares src's backing array from the same start
+// (an in-place append) or is backed by an array allocated during the call.
+// Freshness cannot be observed by executing code; when executed it checks only
+// the first alternative where decidable and otherwise reports true.
+func sameOrFresh[T any](res, src []T) bool { return true }
+
 // bigc denotes the integer written in decimal in s. It exists for constants
 // that do not fit Go's integer types; contracts using it are math-only (the
 // verifier gives it its mathematical meaning; when executed it saturates).
